@@ -265,6 +265,45 @@ def eval_soup(ctx, case):
     if str(root) != out:
         ctx.violation("noninterference:soup", "strip()/deepcopy()/find() changed the rendering of the original", case)
     ctx.count("soup_ok")
+    # the other public spellings of the same operations: character references converted while parsing, every strip() mode
+    from myst_parser.parsers import parse_html as P
+
+    try:
+        rc = P.tokenize_html(s, convert_charrefs=True)
+        n1 = [e for e in rc.walk()]
+        n2 = [e for e in rc.walk(include_self=True)]
+        bad = next((c for e in n2 for c in e if c.parent is not e), None)
+        if bad is not None or len(n2) != len(n1) + 1 or n2[0] is not rc or len({id(e) for e in n2}) != len(n2):
+            ctx.violation("tree:convert_charrefs:inconsistent", "tokenize_html(convert_charrefs=True) yields a tree whose walk()/parent links are inconsistent", case)
+        str(rc)
+        for inplace in (False, True):
+            for recurse in (False, True):
+                t = P.tokenize_html(s)
+                ref = str(t)
+                st = t.strip(inplace=inplace, recurse=recurse)
+                if inplace and st is not t:
+                    ctx.violation("strip:inplace-returns-other-object", "strip(inplace=True) did not return the element itself", case)
+                if not inplace and (st is t or str(t) != ref):
+                    ctx.violation("strip:copy-mode-alters-original", f"strip(inplace=False, recurse={recurse}) changed or returned the original", case, {"before": ref, "after": str(t)})
+                for e in st.walk(include_self=True):
+                    if recurse or e is st:
+                        kids = list(e)
+                        if kids and ((isinstance(kids[0], P.Data) and not kids[0].data.strip() and len(kids[0].data) and False)):
+                            pass
+                    for c in e:
+                        if c.parent is not e:
+                            ctx.violation("strip:parent-link", f"strip(inplace={inplace}, recurse={recurse}) leaves a child whose parent is not its container", case)
+                            break
+                # stripping removes only whitespace-only Data: everything else renders as before, in order
+                if "".join(str(st).split()) != "".join(ref.split()) and not any(isinstance(e, (P.Comment, P.Pi, P.Declaration)) for e in t.walk()):
+                    if "<pre" not in s.lower() and "<textarea" not in s.lower() and "<script" not in s.lower() and "<style" not in s.lower():
+                        ctx.violation("strip:removed-more-than-whitespace", f"strip(inplace={inplace}, recurse={recurse}) changed non-whitespace content", case, {"before": ref, "after": str(st)})
+        ctx.count("api_modes_checked")
+    except RecursionError:
+        ctx.count("soup_render_recursion_limit")
+    except Exception as e:  # noqa: BLE001
+        sig = core.exc_signature(e)
+        ctx.violation(f"total:api-mode-raises-{sig['type']}", f"convert_charrefs=True / strip modes raised on {len(s)} characters: {sig['msg']}", case, sig)
 
 
 def eval_wf(ctx, case, forest=None):
